@@ -56,6 +56,8 @@ def get_clauses(mod):
 def _work(args):
     prop, cname, n, seed, deadline, shrink_kind = args
     try:
+        import io
+        sys.stdout = io.StringIO()      # kawin prints from library code (e.g. temperature arrays); keep workers quiet
         core.use_repo()
         mod = load_module(prop)
         findings = load_findings(prop, mod)
